@@ -1,4 +1,5 @@
 import Robust.Irc.Proofs.PrivHistB
+import Robust.Irc.Proofs.FlagOriginHist
 /-!
 # C13 — privileged effects require the privilege
 
@@ -16,7 +17,12 @@ every message it emits to the acting session only (`Refused c c' sid`:
   services handlers are dispatched only for sessions with `s.server = true`;
 * JOIN of an existing channel: admission condition `joinAllowed`, one-shot invitations;
 * history: chanop flags of an existing channel never appear through entries of sessions that are
-  neither chanop of it, nor IRC operator, nor a services link (`C13_chanop_origin_partial`).
+  neither chanop of it, nor IRC operator, nor a services link (`C13_chanop_origin_partial`);
+* history: a session's `operator` flag comes from an accepted `OPER` line of that session, or from the
+  line that completes its registration when its PASS string has an `oper=<name> <password>` part
+  (`maybeLogin` runs an automatic OPER) — in both cases with a pair listed in the configuration at
+  that moment; a session's `server` flag comes from an accepted `SERVER` line of that session
+  (`C13_oper_flag_history`, `C13_server_flag_history`; section 8).
 
 Model notes.  The captcha path of JOIN (`+x` without invitation) is `.declined` in the model, so
 for `+x` the theorems say "an invitation is required".  All theorems are conditional on the
@@ -557,5 +563,239 @@ example : ∃ c', cmdTopic cR ⟨9, 0⟩ ⟨none, "TOPIC", ["#c", "x"]⟩ = .ok 
 /-- `C13_chanop_origin_partial'` on the reachable state: bob's `MODE #c +o bob` as a committed entry -/
 example : ∀ st' out, applyEntry stR (mk 2 12 ⟨5, 0⟩ "MODE #c +o bob") = .ok (st', out) → OpsMono stR st' "#c" :=
   fun _ _ h => C13_chanop_origin_partial' ginvR rfl bobR_stored (by decide) (by decide) (by decide) (by decide) h
+
+/-! ## 8. history: where operator and server flags come from
+
+Proofs in `Robust/Irc/Proofs/FlagOrigin*.lean`.  The model has exactly three ways to set
+`Session.operator` and one to set `Session.server`, all on the acting session of a client line
+(IRCFromClient entry) and all checked against the configuration of the state before the entry:
+
+* `operByOper cfg s m`: `OPER <name> <password>` of a registered client session, pair listed;
+* `operByLogin cfg s m`: the `NICK` / `USER` / `PASS` line that completes the registration of a
+  client session whose PASS string (for `PASS`: the one this line stores, `passAfter`) has an
+  `oper=<name> <password>` part with a listed pair — `maybeLogin` then runs `cmdOper` itself
+  (`commands.go`, `maybeLogin`: `extractPassword(s.Pass, "oper")`);
+* `serverBySERVER cfg s m`: `SERVER …` of a client session whose stored PASS string is
+  `services=<configured services password>`.
+
+Nothing else sets a flag: no services handler does (the pseudo-clients a services `NICK` creates
+have `server = false`, `operator = false`), CreateSession stores a session without flags,
+DeleteSession / MessageOfDeath / Config entries keep the flags of every stored session. -/
+
+/-- per handler (every handler of `handlerByName`, clients' and services'): a session that carries
+the operator flag after the handler carried it before under the same id, or it is the actor and
+`OperVia` holds (`cmdOper` with a listed pair; `cmdNick`/`cmdUser`/`cmdPass` registering a session
+whose PASS string has an `oper=` part with a listed pair); the same for `server` and `ServerVia`
+(`cmdServer` with a configured services password in the stored PASS string) -/
+theorem C13_flag_origin_handler {fname : String} {h : Handler} (hh : handlerByName fname = some h)
+    {c c' : Ctx} {sid : Id} {m : IrcMsg} (hw : SessWf c.st) (hr : h c sid m = .ok c') :
+    (∀ id s', AMap.get c'.st.sessions id = some s' → s'.operator = true →
+      (∃ s, AMap.get c.st.sessions id = some s ∧ s.operator = true) ∨ (id = sid ∧ OperVia fname c.st sid m)) ∧
+    (∀ id s', AMap.get c'.st.sessions id = some s' → s'.server = true →
+      (∃ s, AMap.get c.st.sessions id = some s ∧ s.server = true) ∨ (id = sid ∧ ServerVia fname c.st sid)) :=
+  handler_flag_origin hh hw hr
+
+/-- on states satisfying the invariant `SessWf` holds -/
+theorem C13_sessWf_of_ginv {st : St} (hg : GInv st) : SessWf st := SessWf.of_core hg.inv.toWInvCore
+
+/-- one committed entry of any type: a session that is an IRC operator afterwards was one before
+(same id), or the entry is a client line of that very session with an operator origin evaluated on
+the session and the configuration stored *before* the entry -/
+theorem C13_oper_flag_origin {st st' : St} {e : Entry} {out : List Out} (hg : GInv st)
+    (hr : applyEntry st e = .ok (st', out)) {sid : Id} {s' : Session}
+    (hs' : AMap.get st'.sessions sid = some s') (hop : s'.operator = true) :
+    (∃ s, AMap.get st.sessions sid = some s ∧ s.operator = true) ∨
+    (e.type = 2 ∧ e.session = sid ∧ ∃ s m, AMap.get st.sessions sid = some s ∧ parseMessage e.data = some m ∧
+      (operByOper st.config s m = true ∨ operByLogin st.config s m = true)) :=
+  (applyEntry_flags (C13_sessWf_of_ginv hg) hr).oper sid s' hs' hop
+
+/-- the same for the `server` flag: the only origin is an accepted `SERVER` line of that session -/
+theorem C13_server_flag_origin {st st' : St} {e : Entry} {out : List Out} (hg : GInv st)
+    (hr : applyEntry st e = .ok (st', out)) {sid : Id} {s' : Session}
+    (hs' : AMap.get st'.sessions sid = some s') (hsv : s'.server = true) :
+    (∃ s, AMap.get st.sessions sid = some s ∧ s.server = true) ∨
+    (e.type = 2 ∧ e.session = sid ∧ ∃ s m, AMap.get st.sessions sid = some s ∧ parseMessage e.data = some m ∧
+      serverBySERVER st.config s m = true) :=
+  (applyEntry_flags (C13_sessWf_of_ginv hg) hr).server sid s' hs' hsv
+
+/-- what the three origins say -/
+theorem C13_operByOper_iff {cfg : Config} {s : Session} {m : IrcMsg} :
+    operByOper cfg s m = true ↔ s.server = false ∧ s.loggedIn = true ∧ toUpper m.command = "OPER" ∧
+      ∃ name password, m.params[0]? = some name ∧ m.params[1]? = some password ∧ operListed cfg name password = true :=
+  operByOper_iff
+
+theorem C13_operByLogin_iff {cfg : Config} {s : Session} {m : IrcMsg} :
+    operByLogin cfg s m = true ↔ s.server = false ∧ s.loggedIn = false ∧
+      (((toUpper m.command = "NICK" ∨ toUpper m.command = "USER") ∧ loginOperCreds cfg s.pass = true) ∨
+       (toUpper m.command = "PASS" ∧ loginOperCreds cfg (passAfter m s.pass) = true)) :=
+  operByLogin_iff
+
+theorem C13_loginOperCreds_iff {cfg : Config} {pass : String} :
+    loginOperCreds cfg pass = true ↔
+      ∃ parsed name password, parseMessage ("OPER " ++ extractPassword pass "oper") = some parsed ∧
+        parsed.params[0]? = some name ∧ parsed.params[1]? = some password ∧ operListed cfg name password = true := by
+  rw [loginOperCreds_iff]
+  constructor
+  · rintro ⟨parsed, hp, hc⟩
+    obtain ⟨name, pw, h0, h1, h2⟩ := operCreds_iff.1 hc
+    exact ⟨parsed, name, pw, hp, h0, h1, h2⟩
+  · rintro ⟨parsed, name, pw, hp, h0, h1, h2⟩
+    exact ⟨parsed, hp, operCreds_iff.2 ⟨name, pw, h0, h1, h2⟩⟩
+
+theorem C13_serverBySERVER_iff {cfg : Config} {s : Session} {m : IrcMsg} :
+    serverBySERVER cfg s m = true ↔ s.server = false ∧ toUpper m.command = "SERVER" ∧ servicesAuth cfg s.pass = true :=
+  serverBySERVER_iff
+
+/-- over histories (any list of entries that runs to `.ok`; nothing is required of the entries): a
+session that is an IRC operator at the end was one at the start (same id), or the history splits
+`es = pre ++ e :: post` at a client line `e` of that session which has an operator origin on the
+state `mid` reached by `pre` — stored session and configuration of `mid` -/
+theorem C13_oper_flag_history {st st' : St} {es : List Entry} (hg : GInv st) (hr : runEntries st es = .ok st')
+    {sid : Id} {s' : Session} (hs' : AMap.get st'.sessions sid = some s') (hop : s'.operator = true) :
+    (∃ s, AMap.get st.sessions sid = some s ∧ s.operator = true) ∨
+    ∃ pre e post mid, es = pre ++ e :: post ∧ runEntries st pre = .ok mid ∧
+      e.type = 2 ∧ e.session = sid ∧ ∃ s m, AMap.get mid.sessions sid = some s ∧ parseMessage e.data = some m ∧
+        (operByOper mid.config s m = true ∨ operByLogin mid.config s m = true) :=
+  run_oper_origin (C13_sessWf_of_ginv hg) hr hs' hop
+
+theorem C13_server_flag_history {st st' : St} {es : List Entry} (hg : GInv st) (hr : runEntries st es = .ok st')
+    {sid : Id} {s' : Session} (hs' : AMap.get st'.sessions sid = some s') (hsv : s'.server = true) :
+    (∃ s, AMap.get st.sessions sid = some s ∧ s.server = true) ∨
+    ∃ pre e post mid, es = pre ++ e :: post ∧ runEntries st pre = .ok mid ∧
+      e.type = 2 ∧ e.session = sid ∧ ∃ s m, AMap.get mid.sessions sid = some s ∧ parseMessage e.data = some m ∧
+        serverBySERVER mid.config s m = true :=
+  run_server_origin (C13_sessWf_of_ginv hg) hr hs' hsv
+
+/-- from the initial state: an operator flag in any reachable state is backed by an accepted line of
+that session in the history (OPER with a listed pair, or the registration of a session whose PASS
+string carries a listed `oper=` pair) -/
+theorem C13_oper_flag_reachable {st' : St} {es : List Entry} (hr : runEntries {} es = .ok st')
+    {sid : Id} {s' : Session} (hs' : AMap.get st'.sessions sid = some s') (hop : s'.operator = true) :
+    ∃ pre e post mid, es = pre ++ e :: post ∧ runEntries {} pre = .ok mid ∧
+      e.type = 2 ∧ e.session = sid ∧ ∃ s m, AMap.get mid.sessions sid = some s ∧ parseMessage e.data = some m ∧
+        (operByOper mid.config s m = true ∨ operByLogin mid.config s m = true) :=
+  run_oper_reachable hr hs' hop
+
+theorem C13_server_flag_reachable {st' : St} {es : List Entry} (hr : runEntries {} es = .ok st')
+    {sid : Id} {s' : Session} (hs' : AMap.get st'.sessions sid = some s') (hsv : s'.server = true) :
+    ∃ pre e post mid, es = pre ++ e :: post ∧ runEntries {} pre = .ok mid ∧
+      e.type = 2 ∧ e.session = sid ∧ ∃ s m, AMap.get mid.sessions sid = some s ∧ parseMessage e.data = some m ∧
+        serverBySERVER mid.config s m = true :=
+  run_server_reachable hr hs' hsv
+
+namespace Ex
+/-- a Config entry that installs `cfg` (operator `root`/`pw`, services password `sekrit`) -/
+def eCfg : Entry :=
+  { type := 6, id := 1, session := ⟨0, 0⟩, data := "", unixNano := 0, cmid := 0, rev := 1, remoteAddr := "", cfg := some cfg }
+/-- after the configuration: oscar registers and types `OPER root pw`; mallory registers and types
+`OPER root wrong`; eve gives `PASS oper=root pw` and registers -/
+def esP : List Entry := [
+  eCfg,
+  mk 0 2 ⟨0, 0⟩ "auth-o", mk 2 3 ⟨2, 0⟩ "NICK oscar", mk 2 4 ⟨2, 0⟩ "USER o 0 * :Oscar", mk 2 5 ⟨2, 0⟩ "OPER root pw",
+  mk 0 6 ⟨0, 0⟩ "auth-m", mk 2 7 ⟨6, 0⟩ "NICK mallory", mk 2 8 ⟨6, 0⟩ "USER m 0 * :Mallory", mk 2 9 ⟨6, 0⟩ "OPER root wrong",
+  mk 0 10 ⟨0, 0⟩ "auth-e", mk 2 11 ⟨10, 0⟩ "PASS oper=root pw", mk 2 12 ⟨10, 0⟩ "NICK eve", mk 2 13 ⟨10, 0⟩ "USER e 0 * :Eve"]
+/-- after the configuration: a services link gives `PASS services=sekrit` and `SERVER`; trudy gives
+`PASS services=wrong` and `SERVER` (nobody has registered yet, so the burst is empty) -/
+def esS : List Entry := [
+  eCfg,
+  mk 0 2 ⟨0, 0⟩ "auth-s", mk 2 3 ⟨2, 0⟩ "PASS services=sekrit", mk 2 4 ⟨2, 0⟩ "SERVER services.x 1",
+  mk 0 5 ⟨0, 0⟩ "auth-t", mk 2 6 ⟨5, 0⟩ "PASS services=wrong", mk 2 7 ⟨5, 0⟩ "SERVER services.y 1"]
+def stP : St := (runOk {} esP).getD {}
+def stS : St := (runOk {} esS).getD {}
+/-- (operator, server) of a stored session -/
+def flags (st : St) (sid : Id) : Option (Bool × Bool) := (AMap.get st.sessions sid).map fun s => (s.operator, s.server)
+theorem runP : runOk {} esP = some stP := by decide +kernel
+theorem runS : runOk {} esS = some stS := by decide +kernel
+/-- oscar and eve are IRC operators, mallory is not -/
+theorem flagsP : [flags stP ⟨2, 0⟩, flags stP ⟨6, 0⟩, flags stP ⟨10, 0⟩] =
+    [some (true, false), some (false, false), some (true, false)] := by decide +kernel
+/-- session 2 is a services link, trudy's session is not -/
+theorem flagsS : [flags stS ⟨2, 0⟩, flags stS ⟨5, 0⟩] = [some (false, true), some (false, false)] := by decide +kernel
+theorem stored_of_flags {st : St} {sid : Id} {a b : Bool} (h : flags st sid = some (a, b)) :
+    ∃ s, AMap.get st.sessions sid = some s ∧ s.operator = a ∧ s.server = b := by
+  unfold flags at h
+  cases hg : AMap.get st.sessions sid with
+  | none => rw [hg] at h; cases h
+  | some s =>
+    rw [hg] at h
+    simp only [Option.map_some, Option.some.injEq, Prod.mk.injEq] at h
+    exact ⟨s, rfl, h.1, h.2⟩
+/-- the states just before oscar's OPER, mallory's OPER, eve's USER, the link's SERVER, trudy's SERVER (in `esS`) -/
+def midO : St := (runOk {} (esP.take 4)).getD {}
+def midM : St := (runOk {} (esP.take 8)).getD {}
+def midE : St := (runOk {} (esP.take 12)).getD {}
+def midS : St := (runOk {} (esS.take 3)).getD {}
+def midT : St := (runOk {} (esS.take 6)).getD {}
+def originAt (mid : St) (sid : Id) (line : String) (f : Config → Session → IrcMsg → Bool) : Option Bool :=
+  match AMap.get mid.sessions sid, parseMessage line with
+  | some s, some m => some (f mid.config s m)
+  | _, _ => none
+end Ex
+
+/-- the hypotheses of `C13_oper_flag_reachable` hold for oscar in the reachable state `stP` … -/
+example : ∃ pre e post mid, esP = pre ++ e :: post ∧ runEntries {} pre = .ok mid ∧
+    e.type = 2 ∧ e.session = ⟨2, 0⟩ ∧ ∃ s m, AMap.get mid.sessions ⟨2, 0⟩ = some s ∧ parseMessage e.data = some m ∧
+      (operByOper mid.config s m = true ∨ operByLogin mid.config s m = true) := by
+  obtain ⟨s', hs', hop, _⟩ := stored_of_flags (st := stP) (sid := ⟨2, 0⟩) (a := true) (b := false) (by decide +kernel)
+  exact C13_oper_flag_reachable (runOk_some runP) hs' hop
+/-- … for eve (who never typed OPER) … -/
+example : ∃ pre e post mid, esP = pre ++ e :: post ∧ runEntries {} pre = .ok mid ∧
+    e.type = 2 ∧ e.session = ⟨10, 0⟩ ∧ ∃ s m, AMap.get mid.sessions ⟨10, 0⟩ = some s ∧ parseMessage e.data = some m ∧
+      (operByOper mid.config s m = true ∨ operByLogin mid.config s m = true) := by
+  obtain ⟨s', hs', hop, _⟩ := stored_of_flags (st := stP) (sid := ⟨10, 0⟩) (a := true) (b := false) (by decide +kernel)
+  exact C13_oper_flag_reachable (runOk_some runP) hs' hop
+/-- … and those of `C13_server_flag_reachable` for the services link -/
+example : ∃ pre e post mid, esS = pre ++ e :: post ∧ runEntries {} pre = .ok mid ∧
+    e.type = 2 ∧ e.session = ⟨2, 0⟩ ∧ ∃ s m, AMap.get mid.sessions ⟨2, 0⟩ = some s ∧ parseMessage e.data = some m ∧
+      serverBySERVER mid.config s m = true := by
+  obtain ⟨s', hs', _, hsv⟩ := stored_of_flags (st := stS) (sid := ⟨2, 0⟩) (a := false) (b := true) (by decide +kernel)
+  exact C13_server_flag_reachable (runOk_some runS) hs' hsv
+/-- the history-level theorem from a reachable state other than the initial one (`stR`, section 6,
+followed by bob's six attempts `es1`): the hypotheses `GInv stR` and `runEntries stR es1 = .ok stEnd` hold -/
+example : ∀ sid s', AMap.get stEnd.sessions sid = some s' → s'.operator = true →
+    (∃ s, AMap.get stR.sessions sid = some s ∧ s.operator = true) ∨ OperHist stR es1 sid :=
+  fun _ _ hs' hop => C13_oper_flag_history ginvR (runOk_some run1) hs' hop
+
+/-- the origins, evaluated on the states just before the lines in question: oscar's `OPER root pw` is
+an `operByOper` origin, mallory's `OPER root wrong` is none; eve's `USER` is an `operByLogin` origin
+(her PASS string has `oper=root pw`), oscar's `USER` was none; the link's `SERVER` is a
+`serverBySERVER` origin, trudy's is none -/
+example : originAt midO ⟨2, 0⟩ "OPER root pw" operByOper = some true := by decide +kernel
+example : originAt midM ⟨6, 0⟩ "OPER root wrong" operByOper = some false := by decide +kernel
+example : originAt midM ⟨6, 0⟩ "OPER root wrong" operByLogin = some false := by decide +kernel
+example : originAt midE ⟨10, 0⟩ "USER e 0 * :Eve" operByLogin = some true := by decide +kernel
+example : originAt midE ⟨10, 0⟩ "USER e 0 * :Eve" operByOper = some false := by decide +kernel
+example : originAt midS ⟨2, 0⟩ "SERVER services.x 1" serverBySERVER = some true := by decide +kernel
+example : originAt midT ⟨5, 0⟩ "SERVER services.y 1" serverBySERVER = some false := by decide +kernel
+
+/-- the per-entry theorem on a reachable state: bob types `OPER root pw` on `stR`, whose configuration
+lists no operator — the entry runs, and bob is not an operator afterwards (by the theorem: he was
+none before and the line has no origin) -/
+example : ∀ st' out, applyEntry stR (mk 2 12 ⟨5, 0⟩ "OPER root pw") = .ok (st', out) →
+    ∀ s', AMap.get st'.sessions ⟨5, 0⟩ = some s' → s'.operator = false := by
+  intro st' out hr s' hs'
+  cases hop : s'.operator with
+  | false => rfl
+  | true =>
+    rcases C13_oper_flag_origin ginvR hr hs' hop with ⟨s, hs, ho⟩ | ⟨_, _, s, m, hs, hm, hv⟩
+    · rw [bobR_stored] at hs; cases hs; exact absurd ho (by decide)
+    · rw [bobR_stored] at hs; cases hs
+      have hm' : parseMessage "OPER root pw" = some m := hm
+      have e1 : operByOper stR.config bobR ⟨none, "OPER", ["root", "pw"]⟩ = false := by decide +kernel
+      have e2 : operByLogin stR.config bobR ⟨none, "OPER", ["root", "pw"]⟩ = false := by decide +kernel
+      have hp : parseMessage "OPER root pw" = some ⟨none, "OPER", ["root", "pw"]⟩ := by decide +kernel
+      rw [hp] at hm'; cases hm'
+      rcases hv with hv | hv
+      · rw [e1] at hv; cases hv
+      · rw [e2] at hv; cases hv
+
+
+/-- the per-handler theorem, instantiated for `cmdOper` run by bob on the reachable state `stR`
+(`handlerByName "cmdOper" = some cmdOper`, `SessWf stR` from the invariant) -/
+example : ∀ c', cmdOper cR ⟨5, 0⟩ ⟨none, "OPER", ["root", "pw"]⟩ = .ok c' →
+    ∀ id s', AMap.get c'.st.sessions id = some s' → s'.operator = true →
+      (∃ s, AMap.get stR.sessions id = some s ∧ s.operator = true) ∨
+      (id = ⟨5, 0⟩ ∧ OperVia "cmdOper" stR ⟨5, 0⟩ ⟨none, "OPER", ["root", "pw"]⟩) :=
+  fun _ hr => (C13_flag_origin_handler (fname := "cmdOper") rfl (C13_sessWf_of_ginv ginvR) hr).1
 
 end Robust.Props.C13
